@@ -742,16 +742,16 @@ class Model:
             states = OrderedDict([(s.symbol.name(), s) for s in self.states])
             alg_states = OrderedDict([(s.symbol.name(), s) for s in self.alg_states])
 
-            all_states = OrderedDict(
-                [(s.symbol.name(), s) for s in itertools.chain(self.states, self.alg_states)]
-            )
-
             # NOTE: dictionary keys are the correspondig _state_'s name, not
             # the names of the derivative states themselves.
             der_states = OrderedDict(zip(states.keys(), self.der_states))
 
             def extract_assignment(eq):
-                if eq.is_symbolic() and eq.name() in all_states and p.match(eq.name()):
+                if (
+                    eq.is_symbolic()
+                    and (eq.name() in states or eq.name() in alg_states)
+                    and p.match(eq.name())
+                ):
                     return eq, 0.0
 
                 if eq.is_op(ca.OP_IF_ELSE_ZERO):
